@@ -146,20 +146,29 @@ fn reference(spec: &Spec, ops: &[Op]) -> Result<Vec<Option<u64>>, PanicInfo> {
 }
 
 fn related_tree(r: &mut Rng, base: &Spec) -> Spec {
-    // same kinds, different parameters: global scratch state keyed by kind would collide
+    // same kinds, different parameters: global or thread-local scratch state keyed by kind, or by kind
+    // and window length, would collide between the replicas
     let mut t = base.clone();
-    fn bump(r: &mut Rng, s: &mut Spec) {
-        if s.k.has_n() && r.chance(0.7) {
+    fn bump(r: &mut Rng, s: &mut Spec, positive: bool) {
+        if s.k.has_n() && r.chance(0.5) {
             s.n = gen_n(r, 64);
-            if s.k == K::EmaAlpha && s.p > s.n as f64 + 1.0 {
-                s.p = 1.0;
-            }
         }
-        for k in s.kids.iter_mut() {
-            bump(r, k);
+        if r.chance(0.6) {
+            gen_params(r, s, positive);
+        }
+        if s.k == K::EmaAlpha && s.p > s.n as f64 + 1.0 {
+            s.p = 1.0;
+        }
+        let child_pos = positive || matches!(s.k, K::Drawdown | K::LnReturn);
+        let is_div = s.k == K::Div;
+        for (i, k) in s.kids.iter_mut().enumerate() {
+            bump(r, k, child_pos || (is_div && i == 1));
         }
     }
-    bump(r, &mut t);
+    bump(r, &mut t, false);
+    if !t.domain_ok_positive_feed() {
+        return base.clone();
+    }
     t
 }
 
